@@ -163,7 +163,7 @@ def st_fl_case(draw):
             "seed": draw(st.integers(0, 2 ** 31 - 1))}
 
 
-@subcheck("C14", "featurelist_roundtrip", st_fl_case, quick=400, thorough=8000,
+@subcheck("C14", "featurelist_roundtrip", st_fl_case, quick=1200, thorough=8000,
           rule="FeatureList of 1-8 maps drawn from all 21 registered classes (log-uniform parameters as python float / "
                "numpy float64 with numpy int indices / int-valued; explicit bounds incl. +-inf, tuple or list, or default) "
                "through as_dict/from_dict or dump/load (yaml), 1-3 cycles; oracle: same types, as_dict and bounds "
@@ -193,7 +193,7 @@ def st_enum_case(draw):
             "cycles": draw(st.integers(1, 3))}
 
 
-@subcheck("C14", "featurelist_all_classes", st_enum_case, quick=24, thorough=400,
+@subcheck("C14", "featurelist_all_classes", st_enum_case, quick=48, thorough=400,
           rule="exhaustive over the code table: one FeatureList containing an instance of every class in "
                "transform_data.ALL_CLASSES (parameters from a drawn seed), each class also round-tripped alone through "
                "FeatureNormalizer.from_dict(as_dict()); same oracle as featurelist_roundtrip; every case is non-trivial",
@@ -284,7 +284,7 @@ def st_spline_case(draw):
             "cycles": draw(st.integers(1, 3)), "seed": draw(st.integers(0, 2 ** 31 - 1)), "ns": draw(st.integers(1, 6))}
 
 
-@subcheck("C14", "evaluator_roundtrip", st_spline_case, quick=300, thorough=6000,
+@subcheck("C14", "evaluator_roundtrip", st_spline_case, quick=600, thorough=6000,
           rule="SplineSetEvaluator (1-3 terms of dimension 1-3, grids 4-7 points, coefficients from filter_cubic of drawn "
                "tables, scale as list or array, const 0 or drawn) through to_dict/from_dict or dump/load (yaml), 1-3 cycles; "
                "oracle: same type, to_dict bit-identical, __call__ with and without caller buffers bit-identical, yaml "
@@ -461,7 +461,7 @@ def st_model_case(draw):
             "ns": draw(st.sampled_from([1, 3, 4, 5])), "seed": draw(st.integers(0, 2 ** 31 - 1))}
 
 
-@subcheck("C14", "model_roundtrip", st_model_case, quick=260, thorough=5000,
+@subcheck("C14", "model_roundtrip", st_model_case, quick=800, thorough=5000,
           rule="complete MappedXC (native baselines) / MappedXC2 (libxc baselines incl. SS_/OS_) models: FeatureSettings "
                "from G-settings with default/recommended/drawn normalisers, 1-2 kernels of 1-7 drawn maps (all classes) and "
                "1-3 evaluators from {RBF, Kernel, GlobalLinear, SplineSet}, mode SEP/NPOL; saved with yaml.dump or "
@@ -553,7 +553,7 @@ def _must_raise(ctx, sig, f, **detail):
     ctx.check(False, sig, returned=type(r).__name__, **detail)
 
 
-@subcheck("C14", "negative", st_neg_case, quick=400, thorough=8000,
+@subcheck("C14", "negative", st_neg_case, quick=1200, thorough=8000,
           rule="corrupted inputs, one typed corruption per case: unknown / wrong-case / non-string code, a required key "
                "removed from a map dict (the optional 'bounds' key excluded), wrong top-level type, the same through a "
                "yaml file, a key removed from a SplineSetEvaluator dict, model files with an unknown extension, an "
